@@ -83,11 +83,29 @@ def start(chk, repo):
         chk.ob("R19.1", pv.qualname + "." + meth, "Python path starts at "
                "_start(device)", ok, f, "start = self._start(device)")
     fa = pv.methods["fmt_addr"]
-    rets = [r for r in walk_no_nested(fa) if isinstance(r, ast.Return)]
-    ok = len(rets) == 1 and match(
-        "((self.size, 1) if isinstance(self.size, int) else self.size, "
-        "self._start(device) + Packet.ETHERNET_HEADER)", rets[0].value) \
-        is not None
+    # by abstract execution: bit numbers and formats, two frame positions
+    ok = True
+    try:
+        hdr = Evaluator(repo, pv.module).class_attr(repo.cls(
+            "ebpfcat.ethercat.Packet"), "ETHERNET_HEADER")
+        for size in (0, 3, 7, "H", "i", "B", "8s", "<I"):
+            for st_ in (26, 1003):
+                dev = Obj(None, {})
+                me = Obj(pv, {"size": size, "_start": (
+                    "hook", lambda d, _s=st_, _d=dev: _s if d is _d
+                    else -1)})
+                got = Evaluator(repo, pv.module, pv).call_function(
+                    fa, [me, dev], cls=pv)
+                want = ((size, 1) if isinstance(size, int) else size,
+                        st_ + hdr)
+                if got != want:
+                    ok = False
+    except (Unknown, Raised):
+        rets = [r for r in walk_no_nested(fa) if isinstance(r, ast.Return)]
+        ok = len(rets) == 1 and match(
+            "((self.size, 1) if isinstance(self.size, int) else self.size, "
+            "self._start(device) + Packet.ETHERNET_HEADER)", rets[0].value) \
+            is not None
     chk.ob("R19.1", pv.qualname + ".fmt_addr", "program path: same start "
            "plus the Ethernet header; a bit is the field (bit, 1)", ok, fa,
            "the XDP program sees the frame with its 14-byte header")
